@@ -332,7 +332,7 @@ pub fn run(ctx: &Ctx) -> Outcome {
     // Sweep 4: all 256 values of one data byte at first / last position of several lengths
     // Sweep 5: try_new for every length 0..=300, 1000, 70000
     // Random : q 2e5, t 2e7 frames
-    let n_random = ctx.size(4_000_000, 40_000_000);
+    let n_random = ctx.size(4_000_000, 150_000_000);
     let random_shards = 64usize;
     let shards = 256 + 1 + 1 + 1 + 1 + random_shards;
     let mut report = run_sharded(ctx, shards, |shard, rep| {
